@@ -440,11 +440,36 @@ def conformable(s):
     return True
 
 
-def conform(traces, wd, max_rounds=6):
+def conformable_faults(s):
+    """Domain of TraceFlwF.tla (FlwF.tla): as conformable(), restricted to the effects FlwF models - no cleanup, no
+    symlink - and to the calls whose error handling it transcribes."""
+    c = s.get("cfg", {})
+    if not _conf_cfg(c) or s.get("resume") or s.get("virt") is False:
+        return False
+    if c.get("k") is not None or c.get("m") is not None or c.get("link"):
+        return False
+    live = False
+    for st in s.get("steps", []):
+        op = st.get("op")
+        if op not in ("Fault", "Start", "Log", "Trigger", "Flush", "Stop", "Adv"):
+            return False
+        if op == "Log" and (st.get("msg") is not None or st.get("target") is not None or st.get("lvl") or st.get("nomod")
+                            or st.get("recursive")):
+            return False
+        if op == "Start":
+            if live:
+                return False
+            live = True
+        elif op == "Stop":
+            live = False
+    return True
+
+
+def conform(traces, wd, max_rounds=6, module="TraceFlwMC.tla", cfg="TraceFlw.cfg"):
     """Runs TraceFlw over the traces: every event of a conformable scenario must be explained by the corresponding
     action of Flw.tla with equal projected state. Returns dict(scenarios, events, drifts=[(sc, n, ev)])."""
     import concurrent.futures
-    cfgp = os.path.join(SPEC, "TraceFlw.cfg")
+    cfgp = os.path.join(SPEC, cfg)
 
     def one(ix_tf):
         ix, tf = ix_tf
@@ -462,7 +487,7 @@ def conform(traces, wd, max_rounds=6):
             return 0, 0, []
         cur = tf
         for rnd in range(max_rounds):
-            res = run_tlc("TraceFlwMC.tla", cfgp, os.path.join(wd, f"conf-meta-{ix}-{rnd}"), workers=1, timeout=1200,
+            res = run_tlc(module, cfgp, os.path.join(wd, f"conf-meta-{ix}-{rnd}"), workers=1, timeout=1200,
                           env={"TRACE": cur}, xmx="3g")
             consumed = 0
             for tag, rest in res["printed"]:
